@@ -15,6 +15,7 @@ RULE = (
     "tensor. Oracle: effective constellation obtained from the real modulator; hard decision must be a nearest point (ties accept all); LLR*sigma^2/Delta must be one positive "
     "constant per scheme. Distinct = (scheme configuration, point); non-trivial = point not on the constellation."
     " Added after the seeded-fault rounds: soft output of an un-batched call = batched call; transposed (non-contiguous) views answered like contiguous tensors (hard and soft); variants of one scheme/order share a child process and one demodulator object serves all noise variances."
+    " Round 5: modem form axis (deep copy of a used pair, .double().float(), state_dict twin)."
 )
 ASSUMPTIONS = [
     "the constant c may differ between schemes; only constancy (rtol 1e-3) and positivity are required, wherever |Delta| > 1e-3*d_min^2",
